@@ -189,7 +189,7 @@ fn enc_checks(prop: &str, c: &EncCase, ctx: Option<&Ctx>) -> Option<(&'static st
                 return None;
             }
             let s = std::str::from_utf8(&c.data).ok()?.to_string();
-            let sc = StrCase { s, cfg: if c.config_is_default() && c.macros { None } else { Some((c.list, c.modes, c.macros)) }, stratum: "fuzz" };
+            let sc = StrCase { s, cfg: if c.config_is_default() && c.macros { None } else { Some((c.list, c.modes, c.macros, c.fnc1)) }, stratum: "fuzz" };
             let v = props::c14::check(&sc);
             return Some(("str", AnyCase::Str(sc), v));
         }
